@@ -330,6 +330,25 @@ def _check_comparison_listens(check, an: Analysis):
     check.floor('W', 7)
 
 
+def check_resource_comparisons(check, an: Analysis, rule: str):
+    """`resources >= {...}` compares the available levels with exactly what was asked: the
+    levels object given, or the levels made of the given dict alone (a resource that is not
+    named counts as zero) -- nothing of the *current* levels is mixed into the operand, which
+    would be frozen into the condition when it is written"""
+    base = 'usim._basics.resource.BaseResources'
+    ops = {'__eq__': '==', '__ne__': '!=', '__gt__': '>', '__ge__': '>=', '__le__': '<=',
+           '__lt__': '<'}
+    for name, symbol in ops.items():
+        method = an.method(base, name)
+        param = method.node.args.args[1].arg
+        forms = {text for _a, text, _n, _p in returned_forms(an, an.callee(base, name))}
+        want = {'self._available %s %s' % (symbol, param),
+                'self._available %s self.resource_type(**%s)' % (symbol, param)}
+        check.instance(rule, 'BaseResources.%s' % name, forms == want, where_fn(method),
+                       'compares the available levels with the levels given, or with the '
+                       'levels made of the dict given and nothing else: %s' % sorted(forms))
+
+
 def check_comparison_truth(check, an: Analysis, rule: str):
     """the truth of a comparison is computed from the current values whenever it is asked
     for (never remembered from an earlier look)"""
@@ -1052,6 +1071,7 @@ def _check_algebra(check, an: Analysis, classes):
     # a comparison of the clock with a date is a condition *object* for that date: its
     # truth follows the clock afterwards (shared with C01)
     c01.check_time_operators(check, an, 'B')
+    check_resource_comparisons(check, an, 'B')
     # a time condition trusts that its one wake-up means the date is reached: the loop
     # queues it under the date as given, a date of 0 included (rules shared with C01)
     c01.check_schedule_keys(check, an, 'B')
